@@ -327,24 +327,45 @@ func genV1(c *collector, thorough bool) {
 	addrs = append(addrs, ip6Good...)
 	addrs = append(addrs, ipBad...)
 	for _, fam := range []string{"TCP4", "TCP6"} {
-		for _, a1 := range addrs {
-			for _, a2 := range addrs {
-				for _, pp := range [][2]string{{"2", "3"}, {"65535", "65535"}} {
-					c.add([]byte(v1line(fam, a1, a2, pp[0], pp[1])+pay()), "v1 addresses", false, 1)
-				}
-			}
-		}
-		// every pairing of port shapes x min / typical / max addresses of the right family
 		pool := ip4Good
 		if fam == "TCP6" {
 			pool = ip6Good
 		}
-		for _, ap := range [][2]string{{pool[0], pool[0]}, {pool[1], pool[2]}, {pool[len(pool)-1], pool[len(pool)-1]}, {pool[0], pool[len(pool)-1]}} {
-			if fam == "TCP6" {
-				ap = [2]string{ap[0], ap[1]}
+		portPairs := [][2]string{{"2", "3"}, {"65535", "65535"}}
+		if thorough {
+			for _, a1 := range addrs {
+				for _, a2 := range addrs {
+					for _, pp := range portPairs {
+						c.add([]byte(v1line(fam, a1, a2, pp[0], pp[1])+pay()), "v1 addresses", false, 1)
+					}
+				}
 			}
-			for _, p1 := range portPool {
-				for _, p2 := range portPool {
+		} else {
+			// every pairing of the good addresses of both families; every address (good, cross-family, bad) in
+			// either position next to the shortest and the longest good partner
+			for _, a1 := range append(append([]string{}, ip4Good...), ip6Good...) {
+				for _, a2 := range append(append([]string{}, ip4Good...), ip6Good...) {
+					c.add([]byte(v1line(fam, a1, a2, "2", "3")+pay()), "v1 addresses", false, 1)
+				}
+			}
+			for _, a := range addrs {
+				for _, g := range []string{pool[0], pool[len(pool)-1]} {
+					for _, pp := range portPairs {
+						c.add([]byte(v1line(fam, a, g, pp[0], pp[1])+pay()), "v1 addresses", false, 1)
+						c.add([]byte(v1line(fam, g, a, pp[0], pp[1])+pay()), "v1 addresses", false, 1)
+					}
+				}
+			}
+		}
+		// every pairing of port shapes x min / typical / max addresses of the right family
+		addrPairs := [][2]string{{pool[0], pool[0]}, {pool[1], pool[2]}, {pool[len(pool)-1], pool[len(pool)-1]}, {pool[0], pool[len(pool)-1]}}
+		for ai, ap := range addrPairs {
+			for i1, p1 := range portPool {
+				for i2, p2 := range portPool {
+					// quick: the full product for the shortest addresses, each shape in either position for the others
+					if !thorough && ai > 0 && i1 != 3 && i2 != 3 {
+						continue
+					}
 					c.add([]byte(v1line(fam, ap[0], ap[1], p1, p2)+pay()), "v1 ports", false, 1)
 				}
 			}
@@ -542,7 +563,7 @@ func caddr(a net.Addr) string {
 func tlvSum(b []byte) uint64 {
 	var s uint64
 	for i, x := range b {
-		s = (s*31 + uint64(x) + uint64(i)) % 1000000007
+		s += uint64(x) * uint64(i+1)
 	}
 	return s
 }
@@ -662,7 +683,7 @@ func writeShard(dir, name, typ, modelF, propF string, cases []string, extra stri
 	sb.WriteString("From G08 Require Import Check.\nOpen Scope N_scope.\n")
 	fmt.Fprintf(&sb, "Definition cases : list %s :=\n  %s.\n", typ, coqfmt.List(typ, cases))
 	fmt.Fprintf(&sb, "Definition M := Eval vm_compute in (bad %s cases).\n", modelF)
-	fmt.Fprintf(&sb, "Definition P := Eval vm_compute in (bad %s cases).\n", propF)
+	fmt.Fprintf(&sb, "Definition P := Eval vm_compute in (badv %s cases).\n", propF)
 	sb.WriteString("Print M.\nPrint P.\n")
 	sb.WriteString(extra)
 	return os.WriteFile(filepath.Join(dir, name), []byte(sb.String()), 0o644)
@@ -762,8 +783,8 @@ func main() {
 	genGarbage(c, nGarbage)
 	m.ReaderCases, m.ReaderAccepted, m.ReaderRejected = len(c.coq), c.accepted, c.rejected
 	m.Schedules, m.Deviants, m.ErrHist, m.LenHist = c.nSched, c.nDeviant, c.errHist, c.lenHist
-	m.Kinds = append(m.Kinds, writeKind(*out, "rcases", "rcase", "rcase_model_ok", "rcase_prop_ok", c.coq, c.js, 400,
-		"Definition B := Eval vm_compute in (map rcase_branch cases).\nPrint B.\n"))
+	m.Kinds = append(m.Kinds, writeKind(*out, "rcases", "rcase", "rcase_model_ok", "rcase_verdict", c.coq, c.js, 400,
+		""))
 
 	// compact v2 sweep
 	var vcoq []string
@@ -820,7 +841,7 @@ func main() {
 		m.V2Exhaustive = "all 256 version/command bytes x all 256 family bytes at length 36 (exhaustive) + version 2 commands 0..2 x all 256 families x 11 lengths + commands 3..15 x 20 families x 11 lengths"
 	}
 	m.V2Cases = len(vcoq)
-	m.Kinds = append(m.Kinds, writeKind(*out, "vcases", "vcase", "vcase_model_ok", "vcase_prop_ok", vcoq, vjs, 4000, ""))
+	m.Kinds = append(m.Kinds, writeKind(*out, "vcases", "vcase", "vcase_model_ok", "vcase_verdict", vcoq, vjs, 4000, ""))
 
 	// token level
 	var tcoq []string
@@ -837,7 +858,7 @@ func main() {
 		tjs = append(tjs, map[string]string{"kind": "token", "in": hex.EncodeToString([]byte(tok))})
 	}
 	m.TokenCases = len(tcoq)
-	m.Kinds = append(m.Kinds, writeKind(*out, "tcases", "tcase", "tcase_model_ok", "tcase_prop_ok", tcoq, tjs, 2500, ""))
+	m.Kinds = append(m.Kinds, writeKind(*out, "tcases", "tcase", "tcase_model_ok", "tcase_verdict", tcoq, tjs, 2500, ""))
 
 	// connection level and the full proxy
 	runConnCases(*out, r, thorough, &m)
